@@ -74,20 +74,18 @@ def run(chk):
             seen_templates.setdefault(tn, set()).add(cls)
             rs = readers.get(v["id"], [])
             if cls == "unordered":
-                by_reader = {}
-                for f in rs:
-                    by_reader.setdefault(tmpl_name(f.get("qname", f["name"])), []).append(f)
-                if not by_reader:
+                names = sorted({tmpl_name(f.get("qname", f["name"])) for f in rs})
+                if not names:
                     chk.holds("R1", "%s|<no reader>|%s" % (v["name"], T), "unordered but never read", short(v["loc"]), nontrivial=False)
-                for rn, fl in sorted(by_reader.items()):
-                    # one obligation per (variable template, reader function template): the known-finding key
-                    key_inst = "%s<-%s" % (tn, rn)
-                    if not any(o["instance"] == key_inst for o in chk.obs):
-                        chk.violated("R1", key_inst,
-                                     "%s (%s, dynamic initialisation, from %s) is read by %s at %s; first seen for %s = %s. "
-                                     "A namespace-scope object that converts units before main() may run before this table is constructed."
-                                     % (tn, v["tsk"], "a partial specialisation" if v.get("from_partial") else "the primary template",
-                                        rn, short(fl[0].get("def_loc", fl[0]["loc"])), v["name"], cls), short(v["loc"]))
+                elif not any(o["instance"] == tn for o in chk.obs):
+                    # one obligation per variable template (the known-finding key): the defect is "this table has no initialisation
+                    # order with user objects, yet the library reads it"; which internal function holds the read is an
+                    # implementation detail that a refactor may move (paths from unit-free entry points are R4's business)
+                    chk.violated("R1", tn,
+                                 "%s (%s, dynamic initialisation, from %s) is read by %s; first seen for %s at %s. "
+                                 "A namespace-scope object that converts units before main() may run before this table is constructed."
+                                 % (tn, v["tsk"], "a partial specialisation" if v.get("from_partial") else "the primary template",
+                                    ", ".join(names[:4]), v["name"], short(rs[0].get("def_loc", rs[0]["loc"]))), short(v["loc"]))
             else:
                 chk.holds("R1", "%s|%s" % (v["name"], T), "%s; %d reader(s)" % (cls, len(rs)), short(v["loc"]), nontrivial=(cls != "constant"))
             # R2
